@@ -25,6 +25,21 @@ Theorem C13_partial_never_panics : forall lit o n,
 Proof. exact partial_never_panics. Qed.
 Print Assumptions C13_partial_never_panics.
 
+(* A section downloaded in consecutive pieces is the section: <o.n> followed by <o+n.m> is exactly <o.n+m>, for every
+   literal and every split, and <0.n> with n at least the length is the whole section. *)
+Theorem C13_partial_chunks_concat : forall lit o n m a b,
+  (0 <= o)%Z -> (0 <= n)%Z -> (0 <= m)%Z -> (o + n <= max_int64)%Z -> (n + m <= max_int64)%Z ->
+  (Z.of_nat (length lit) <= max_int64)%Z ->
+  with_partial lit o n = Some a -> with_partial lit (o + n) m = Some b ->
+  with_partial lit o (n + m) = Some (a ++ b).
+Proof. exact partial_chunks_concat. Qed.
+Print Assumptions C13_partial_chunks_concat.
+
+Theorem C13_partial_whole : forall lit n, (Z.of_nat (length lit) <= n <= max_int64)%Z ->
+  with_partial lit 0 n = Some lit.
+Proof. exact partial_whole. Qed.
+Print Assumptions C13_partial_whole.
+
 (* Every literal's announced length equals the bytes that follow: a reader taking `{n}CRLF` and then n bytes gets
    the literal back and stands exactly behind it. *)
 Theorem C13_literal_length_matches : forall lit rest, read_literal (frame_literal lit ++ rest) = Some (lit, rest).
@@ -159,4 +174,10 @@ Example C13_partial_example :
   with_partial [1;2;3;4;5]%N 1 9223372036854775807 = Some [2;3;4;5]%N /\
   with_partial [1;2;3;4;5]%N 9223372036854775807 9223372036854775807 = Some [] /\
   with_partial [1;2;3;4;5]%N 1 2 = Some [2;3]%N.
+Proof. vm_compute. repeat split. Qed.
+
+(* non-vacuity of the reassembly theorem: a split whose second piece runs past the end *)
+Example C13_chunks_example :
+  with_partial [1;2;3;4;5]%N 1 2 = Some [2;3]%N /\ with_partial [1;2;3;4;5]%N (1 + 2) 9 = Some [4;5]%N /\
+  with_partial [1;2;3;4;5]%N 1 (2 + 9) = Some ([2;3] ++ [4;5])%N /\ with_partial [1;2;3;4;5]%N 0 5 = Some [1;2;3;4;5]%N.
 Proof. vm_compute. repeat split. Qed.
